@@ -13,7 +13,10 @@ variable {ε : Type}
     An I/O failure while reading the response header makes `readResponseHeader` return a nil
     header which `handleSetCommon` dereferences: a panic in the connection's goroutine. -/
 def store (t : Tier) (k : SetKind) (c : SetCmd) : Prog ε (HRes Unit) := do
-  let r ← Prog.req t { op := k.op, key := c.key, flags := c.flags, exptime := c.exptime, value := c.data }
+  -- append / prepend commands carry no extras on the wire (`writeAppendPrependCmdCommon`)
+  let noExtras := k == .append || k == .prepend
+  let r ← Prog.req t { op := k.op, key := c.key, flags := if noExtras then 0 else c.flags,
+                       exptime := if noExtras then 0 else c.exptime, value := c.data }
   match r with
   | .io => pure (.error .panic)
   | .status s =>
